@@ -3,6 +3,7 @@ import MypyVerif.Model.Fold
 Line-protocol driver for the constant-folding models (model file only).
 
   B <ext 0|1> <op> <val> <val>    foldBin ext op l r   and  pyBin op l r
+  G <ext 0|1> <op> <val> <val>    like B, plus `below=<0|1>` = belowGuard ext op l r (no size guard fires)
   U <ext 0|1> <uop> <val>         foldUn ext op v      and  pyUnary op v
   E <ext 0|1> <prefix expression> foldExpr ext e       and  pyEval e
       → `fold=<res|none> py=<res|raise:<Exc>|notmodelled>`
@@ -90,6 +91,11 @@ def step (line : String) : String :=
   | "B" :: ext :: op :: a :: b :: [] =>
     match parseOp op, parseVal a, parseVal b with
     | some op, some a, some b => s!"fold={showFold (foldBin (ext == "1") op a b)} py={showPy (pyBin op a b)}"
+    | _, _, _ => "bad-op"
+  | "G" :: ext :: op :: a :: b :: [] =>
+    match parseOp op, parseVal a, parseVal b with
+    | some op, some a, some b =>
+      s!"fold={showFold (foldBin (ext == "1") op a b)} py={showPy (pyBin op a b)} below={if belowGuard (ext == "1") op a b then "1" else "0"}"
     | _, _, _ => "bad-op"
   | "U" :: ext :: op :: a :: [] =>
     match parseUOp op, parseVal a with
